@@ -154,6 +154,29 @@ class Live(object):
         return dict(msgs=[(m.command, m.args[0], m.args[1]) for m in out if m.command in ('PRIVMSG', 'NOTICE')],
                     calls=list(calls), body_calls=body_calls, ignored=bool(msg.tagged('ignored')), crash=crash)
 
+    def feed(self, text):
+        """the same through the front door: PRIVMSG '@<text>' -> Owner.doPrivmsg -> callbacks.tokenize -> Proxy"""
+        b = self.b
+        b.world.vt_c14_calls = calls = []
+        b.world.vt_c14_log = []
+        msg = b.ircmsgs.privmsg('#vt', '@' + text, prefix='al!u@h')
+        crash = None
+        try:
+            b.irc.feedMsg(msg)
+        except Exception as e:
+            crash = type(e).__name__
+        deadline = time.time() + 20
+        while True:
+            ts = [t for t in threading.enumerate() if isinstance(t, self.cb.CommandThread) and t.is_alive()]
+            if not ts or time.time() > deadline:
+                break
+            for t in ts:
+                t.join(0.5)
+        out = bot.drain(b)
+        b.world.vt_c14_calls = None
+        return dict(msgs=[(m.command, m.args[0], m.args[1]) for m in out if m.command in ('PRIVMSG', 'NOTICE')],
+                    calls=list(calls), body_calls=list(b.world.vt_c14_log), ignored=bool(msg.tagged('ignored')), crash=crash)
+
     def find(self, args):
         b = self.b
         msg = b.ircmsgs.privmsg('#vt', 'x', prefix='al!u@h')
@@ -354,6 +377,21 @@ def gen_world(r, k):
 # --------------------------------------------------------------------------------------------
 # the property statement on the implementation
 # --------------------------------------------------------------------------------------------
+def quote(x):
+    return '"' + x.replace('\\', '\\\\').replace('"', '\\"') + '"'
+
+def render_line(r, tokens, top=True):
+    """the line as a user types it: literals in double quotes (simple words sometimes bare), sub-commands in []"""
+    out = []
+    for x in tokens:
+        if isinstance(x, list):
+            out.append('[' + render_line(r, x, False) + ']')
+        elif re.match(r'^[A-Za-z0-9_#-]+$', x) and r.random() < 0.6:
+            out.append(x)
+        else:
+            out.append(quote(x))
+    return ' '.join(out)
+
 def postorder(tokens, path=()):
     """[(path, node)] of all sub-lists (the whole line included) in left-to-right post-order"""
     out = []
@@ -424,6 +462,17 @@ def oracle_order(tokens, res, world):
     if len(res['body_calls']) > len(res['calls']):
         return False, 'a command body ran %d times for %d dispatches' % (len(res['body_calls']), len(res['calls']))
     return True, ''
+
+def flat(tokens):
+    for x in tokens:
+        if isinstance(x, list):
+            for y in flat(x):
+                yield y
+        else:
+            yield x
+
+def valid_text(x):
+    return '\r' not in x and '\n' not in x and '\0' not in x
 
 def tree_depth(tokens):
     return max([0] + [1 + tree_depth(x) for x in tokens if isinstance(x, list)])
@@ -503,6 +552,28 @@ def explore(live, r, n_worlds, per_world, corpus=()):
                 mc, paths = model_calls(log)
                 return cut_foreign(canon_model(f[0]), mc, ig)
             add(c, 'eval\t' + enc_tree(tokens), post)
+        def add_feed(tokens):
+            # end to end (C13 tokenizer + Owner.doPrivmsg + proxy): same calls and reply as the direct evaluation;
+            # with supybot.commands.nested off the brackets are literal text: at most the line's own command runs
+            if not tokens or not all(valid_text(x) for x in flat(tokens)):
+                return
+            text = render_line(r, tokens)
+            direct = live.run(tokens)
+            fed = live.feed(text)
+            a = (canon_result(direct), canon_calls(direct['calls'])); bb = (canon_result(fed), canon_calls(fed['calls']))
+            ok = (a == bb); msg = ''
+            if not ok:
+                msg = 'line %r: evaluation through doPrivmsg gives %r, evaluating its token tree %r gives %r' % (text, bb, tokens, a)
+            else:
+                live.conf.supybot.commands.nested.setValue(False)
+                try:
+                    off = live.feed(text)
+                finally:
+                    live.conf.supybot.commands.nested.setValue(True)
+                if len(off['calls']) > 1:
+                    ok = False; msg = 'nesting disabled, line %r: brackets were not literal text, calls %r' % (text, off['calls'])
+            cases.append(Case(dict(op='feed', text=text, tokens=tokens, world=winfo), oracle_ok=ok, oracle_msg=msg, kind='feed',
+                              tags=('feed', 'nested' if any(isinstance(x, list) for x in tokens) else 'flat')))
         for item in corpus:
             add_eval(item['tokens'], 'corpus')
         for _ in range(per_world.get('full', 0)):
@@ -510,6 +581,8 @@ def explore(live, r, n_worlds, per_world, corpus=()):
             add_eval(t, 'full', check_full=full_applicable(w))
         for _ in range(per_world.get('mixed', 0)):
             add_eval(gen_mixed(r, r.randint(0, 4)), 'mixed')
+        for _ in range(per_world.get('feed', 0)):
+            add_feed(gen_full(r, r.randint(0, 3)) if r.random() < 0.6 else gen_mixed(r, r.randint(0, 3)))
         for _ in range(per_world.get('deep', 0)):
             add_eval(gen_deep(r, w['maxNesting']), 'deep', check_full=full_applicable(w))
         names = sorted(set(BARE + [x for rec in live.records for x in rec[4][:6]] + [rec[2].lower() for rec in live.records]))
@@ -594,7 +667,7 @@ def load_corpus():
     except OSError:
         return []
 
-QUICK = dict(full=30, mixed=60, deep=10, disp=80, canon=10)
+QUICK = dict(full=30, mixed=60, deep=10, feed=12, disp=80, canon=10)
 
 def run(ctx):
     build = leanbuild.ensure(PROPERTY, THEOREMS, thorough=ctx.thorough, extractors=[])   # C14 uses no extracted table
@@ -607,7 +680,7 @@ def run(ctx):
         import random
         rr = random.Random('%d/c14-search' % ctx.seed)
         seeds = [dict(tokens=d.input['tokens']) for d in disagreements[:50] if d.input.get('op') == 'eval']
-        more, _, _ = explore(live, rr, 30, dict(full=40, mixed=80, deep=10, disp=80), seeds)
+        more, _, _ = explore(live, rr, 30, dict(full=40, mixed=80, deep=10, feed=15, disp=80), seeds)
         return [c for c in more if c.oracle_ok is False]
     return verdict.conclude(PROPERTY, ctx.tier, ctx.seed, build, cases, search=search, rule=RULE, trusted_base=TRUSTED,
                             assumptions=['command bodies use their irc object at most once (reply / noReply / error / nothing / raise)',
